@@ -917,7 +917,7 @@ def lossless_rule(ctx, syn):
     """DataOperator::to_string prints the payload of each operator as a literal the parser reads back to the same value.
     For the numeric and datetime payloads that is a property of the formatter alone: `{}` of an integer or float is exact
     (shortest round-trip), a precision/width specifier is not; a datetime is exact through to_rfc3339() only."""
-    r = ctx.rule("C09.LOSSLESS", "DataOperator::to_string renders integer payloads with a bare {}, float payloads with {:?} (exact, and keeps the decimal point) and datetime payloads with to_rfc3339() (or an equally exact to_rfc3339_opts), directly or through a crate function that does")
+    r = ctx.rule("C09.LOSSLESS", "DataOperator::to_string renders integer payloads with a bare {}, float payloads through a helper of the crate (neither bare {} nor bare {:?} is read back as the same float for every value; ROUNDTRIP evaluates the helper) and datetime payloads with to_rfc3339() (or an equally exact to_rfc3339_opts), directly or through a crate function that does")
     fs = [f for f in syn.fns if f.name == "to_string" and f.file == "src/datavalue.rs" and "DataOperator" in (f.self_ty or "")]
     if len(fs) != 1 or "DataOperator" not in syn.enums:
         ctx.anchor_missing(r, "DataOperator::to_string")
@@ -981,15 +981,25 @@ def lossless_rule(ctx, syn):
             ctx.report(r, "shape:" + key, "the arm DataOperator::%s of to_string is not a single format!(literal, ..): how the payload is rendered is not established" % key, fn.file, a["l"])
             continue
         spec = re.findall(r"\{[^}]*\}", strip(fm[0]["args"][0])["v"].replace("{{", "").replace("}}", ""))
-        # an integer is exact with {}; a float must keep its decimal point to be read back as a float: {:?} prints 1.0 where {} prints 1
-        want_spec = "{:?}" if kind == "float" else "{}"
-        if any(x != want_spec for x in spec):
-            if kind == "float" and all(x == "{}" for x in spec):
-                ctx.report(r, "spec:" + key, "DataOperator::%s prints its float payload with {}: a float with an integral value is written without a decimal point (1.0 as `1`) and the parser reads the literal back as an integer operator" % key, fn.file, a["l"])
-            else:
-                ctx.report(r, "spec:" + key, "DataOperator::%s is printed with the format specifier %s: a width/precision changes the literal, the parser reads back another value" % (key, [x for x in spec if x != want_spec]), fn.file, a["l"])
+        # an integer is exact with a bare {}.  A float is not: {} drops the decimal point of an integral value (1.0 -> `1`, read
+        # back as an integer) and {:?} switches to exponent notation below 1e-5 and from 1e16 (`1e-6`, which the parser reads
+        # as a string), so a float has to go through a helper of the crate; what that helper prints is decided by ROUNDTRIP,
+        # which evaluates it on integral, fractional, tiny and huge floats
+        rest0 = fm[0]["args"][1:]
+        via_helper = len(rest0) == 1 and strip(rest0[0]).get("k") == "call" and strip(strip(rest0[0])["func"]).get("k") == "path" and strip(strip(rest0[0])["func"])["path"][-1] in local_fns
+        if kind == "float":
+            if any(x not in ("{}", "{:?}") for x in spec):
+                ctx.report(r, "spec:" + key, "DataOperator::%s is printed with the format specifier %s: a width/precision changes the literal, the parser reads back another value" % (key, [x for x in spec if x not in ("{}", "{:?}")]), fn.file, a["l"])
+            elif not via_helper:
+                ctx.report(r, "spec:" + key, "DataOperator::%s prints its float payload directly with %s: %s" % (key, spec[0] if spec else "?", "a float with an integral value is written without a decimal point (1.0 as `1`) and read back as an integer operator" if spec and spec[0] == "{}" else "very small and very large values come out in exponent notation (`1e-6`), which the query parser does not read as a number"), fn.file, a["l"])
+        elif any(x != "{}" for x in spec):
+            ctx.report(r, "spec:" + key, "DataOperator::%s is printed with the format specifier %s: a width/precision changes the literal, the parser reads back another value" % (key, [x for x in spec if x != "{}"]), fn.file, a["l"])
         rest = fm[0]["args"][1:]
-        if kind in ("number", "float"):
+        if kind == "float" and via_helper:
+            inner = strip(rest[0])["args"]
+            if not (len(inner) == 1 and unparse(strip(inner[0])).lstrip("*&") == var):
+                ctx.report(r, "render:" + key, "DataOperator::%s prints %s instead of its payload" % (key, unparse(rest[0])), fn.file, a["l"])
+        elif kind in ("number", "float"):
             if not (len(rest) == 1 and strip(rest[0]).get("k") == "path" and strip(rest[0])["path"] == [var]):
                 ctx.report(r, "render:" + key, "DataOperator::%s prints %s instead of the payload itself" % (key, ",".join(unparse(x) for x in rest)), fn.file, a["l"])
         else:
@@ -1022,7 +1032,9 @@ def verbatim_rule(ctx, syn):
     if "&'astr" not in ret and "&str" not in ret:
         ctx.report(r, "parser-not-zero-copy", "get_arg no longer returns slices of the input (%s): whether the parser un-escapes literals has to be re-established before the printers can be judged" % ret, ga[0].file, ga[0].line)
         return
-    local_string_fns = set(f.name for f in syn.fns if f.impl is None and f.file in ("src/api/query.rs", "src/datavalue.rs") and "String" in re.sub(r"\s+", "", str((f.sig.get("output") or {}).get("s", "") if isinstance(f.sig.get("output"), dict) else f.sig.get("output"))) and "Result" not in str(f.sig.get("output")))
+    local_string_fns = set(f.name for f in syn.fns if f.impl is None and f.file in ("src/api/query.rs", "src/datavalue.rs") and "String" in re.sub(r"\s+", "", str((f.sig.get("output") or {}).get("s", "") if isinstance(f.sig.get("output"), dict) else f.sig.get("output"))) and "Result" not in str(f.sig.get("output"))
+                           # (a helper that renders a number - f64 -> String - does not touch a *string* operand)
+                           and any(re.search(r"str|String|Cow", re.sub(r"\s+", "", (i_.get("ty") or {}).get("s", ""))) for i_ in f.sig["inputs"]))
     printers = [f for f in syn.fns if f.name == "to_string" and f.body is not None and ((f.file == "src/api/query.rs" and re.match(r"^(Constraint|Query|Assignment)", f.self_ty or "")) or (f.file == "src/datavalue.rs" and "DataOperator" in (f.self_ty or "")))]
     ctx.floor(r, len(printers), 3, "query printers")
     n = 0
